@@ -81,7 +81,7 @@ Definition classify (s : state) (e : ev) (s1 : state) (st : list N) : list N :=
                         | None => bump st 10 1 end
             | None => bump st 10 1
             end
-        | DHs h _ => if 7 <=? h then bump st 27 1 else bump st (12 + N.to_nat (N.min h 6)) 1
+        | DHs h _ => if 8 <=? h then bump st 28 1 else if 7 <=? h then bump st 27 1 else bump st (12 + N.to_nat (N.min h 6)) 1
         end) ds st
   | ERemovePeer _ => bump st 19 1
   | ERemoveAll => bump st 19 (lenN (s_peers s))
@@ -97,4 +97,4 @@ Fixpoint stats_run (s : state) (evs : list ev) (st : list N) : list N :=
   | e :: r => let s1 := step_state s e in stats_run s1 r (classify s e s1 st)
   end.
 Definition stats (ks : list case) : list N :=
-  fold_left (fun st k => stats_run (init (c_cfg k)) (map fst (c_trace k)) st) ks (repeat 0 28).
+  fold_left (fun st k => stats_run (init (c_cfg k)) (map fst (c_trace k)) st) ks (repeat 0 29).
